@@ -23,22 +23,25 @@ type colSpec struct {
 	vars     [][2]string // Go source text -> Lean variable, in parameter order
 	counters []string    // counter mode: local int counters, in output order
 	appendTo string      // append mode: the slice variable
+	ints     bool        // append mode over Int-valued variables
 }
 
 var colSpecs = []colSpec{
-	{"pkg/closest/closest.go", "rawDistance", [][2]string{{"query.Seq[i]", "q"}, {"tNuc", "t"}}, []string{"n", "d"}, ""},
-	{"pkg/closest/closest.go", "snpDistance", [][2]string{{"query.Seq[i]", "q"}, {"tNuc", "t"}}, []string{"n"}, ""},
-	{"pkg/closest/closest.go", "tn93Distance", [][2]string{{"query.Seq[i]", "q"}, {"tNuc", "t"}}, []string{"count_P1", "count_P2", "count_d", "count_L"}, ""},
-	{"pkg/closest/closest.go", "findClosest", [][2]string{{"query.Seq[i]", "q"}, {"tNuc", "t"}}, nil, "snps"},
-	{"pkg/snps/snps.go", "getSNPs", [][2]string{{"refSeq[i]", "r"}, {"nuc", "q"}}, nil, "SNPs"},
-	{"pkg/updown/input.go", "getLines", [][2]string{{"refSeq[i]", "r"}, {"que_nuc", "q"}}, nil, "snps"},
-	{"pkg/variants/pairwise.go", "getNucsPair", [][2]string{{"ref[alignPos]", "r"}, {"query[alignPos]", "q"}}, nil, "variants"},
-	{"pkg/variants/pairwise.go", "getAAsPair", [][2]string{{"ref[alignmentPos]", "r"}, {"query[alignmentPos]", "q"}}, nil, "codonSNPs"},
+	{"pkg/closest/closest.go", "rawDistance", [][2]string{{"query.Seq[i]", "q"}, {"tNuc", "t"}}, []string{"n", "d"}, "", false},
+	{"pkg/closest/closest.go", "snpDistance", [][2]string{{"query.Seq[i]", "q"}, {"tNuc", "t"}}, []string{"n"}, "", false},
+	{"pkg/closest/closest.go", "tn93Distance", [][2]string{{"query.Seq[i]", "q"}, {"tNuc", "t"}}, []string{"count_P1", "count_P2", "count_d", "count_L"}, "", false},
+	{"pkg/closest/closest.go", "findClosest", [][2]string{{"query.Seq[i]", "q"}, {"tNuc", "t"}}, nil, "snps", false},
+	{"pkg/snps/snps.go", "getSNPs", [][2]string{{"refSeq[i]", "r"}, {"nuc", "q"}}, nil, "SNPs", false},
+	{"pkg/updown/input.go", "getLines", [][2]string{{"refSeq[i]", "r"}, {"que_nuc", "q"}}, nil, "snps", false},
+	{"pkg/variants/pairwise.go", "getNucsPair", [][2]string{{"ref[alignPos]", "r"}, {"query[alignPos]", "q"}}, nil, "variants", false},
+	{"pkg/variants/pairwise.go", "getAAsPair", [][2]string{{"ref[alignmentPos]", "r"}, {"query[alignmentPos]", "q"}}, nil, "codonSNPs", false},
+	{"pkg/variants/variants.go", "WriteVariants", [][2]string{{"start", "start"}, {"end", "stop"}, {"v.Position", "pos"}}, nil, "sa", true},
 }
 
 type colTr struct {
 	fset *token.FileSet
 	vars map[string]string
+	ints bool // conditions are over Int (options that may be -1), not over column codes
 }
 
 func (t *colTr) src(e ast.Expr) string {
@@ -135,6 +138,9 @@ func (t *colTr) appendConds(stmts []ast.Stmt, path []string, target string, out 
 			}
 		case *ast.IfStmt:
 			c := t.boolean(s.Cond)
+			if t.ints {
+				c = t.intBool(s.Cond)
+			}
 			t.appendConds(s.Body.List, append(append([]string{}, path...), c), target, out)
 			neg := "(!" + c + ")"
 			switch e := s.Else.(type) {
@@ -143,7 +149,7 @@ func (t *colTr) appendConds(stmts []ast.Stmt, path []string, target string, out 
 			case *ast.IfStmt:
 				t.appendConds([]ast.Stmt{e}, append(append([]string{}, path...), neg), target, out)
 			case nil:
-				if endsInJump(s.Body) {
+				if endsInJump(s.Body) && t.src(s.Cond) != "err != nil" { // an error exit is not a column condition
 					path = append(append([]string{}, path...), neg)
 				}
 			}
@@ -250,7 +256,15 @@ func dumpCols(root string) string {
 		fset := token.NewFileSet()
 		af, err := parser.ParseFile(fset, filepath.Join(root, sp.file), nil, 0)
 		name := strings.TrimSuffix(filepath.Base(sp.file), ".go") + "_" + sp.fn
-		args := sp.vars[0][1] + " " + sp.vars[1][1]
+		var argNames []string
+		for _, v := range sp.vars {
+			argNames = append(argNames, v[1])
+		}
+		args := strings.Join(argNames, " ")
+		typ := "Nat"
+		if sp.ints {
+			typ = "Int"
+		}
 		var fd *ast.FuncDecl
 		if err == nil {
 			for _, d := range af.Decls {
@@ -263,7 +277,7 @@ func dumpCols(root string) string {
 			fmt.Fprintf(&b, "-- %s.%s: not found\n\n", sp.file, sp.fn)
 			continue // the theorem naming it fails
 		}
-		t := &colTr{fset: fset, vars: map[string]string{}}
+		t := &colTr{fset: fset, vars: map[string]string{}, ints: sp.ints}
 		for _, v := range sp.vars {
 			t.vars[v[0]] = v[1]
 		}
@@ -271,7 +285,7 @@ func dumpCols(root string) string {
 			var conds []string
 			t.appendConds(fd.Body.List, nil, sp.appendTo, &conds)
 			fmt.Fprintf(&b, "/-- %s, %s: the condition (inside its innermost loop) of every `%s = append(%s, ...)` -/\n", sp.file, sp.fn, sp.appendTo, sp.appendTo)
-			fmt.Fprintf(&b, "def %s (%s : Nat) : List Bool := [%s]\n\n", name, args, strings.Join(conds, ", "))
+			fmt.Fprintf(&b, "def %s (%s : %s) : List Bool := [%s]\n\n", name, args, typ, strings.Join(conds, ", "))
 			continue
 		}
 		// counter mode: the innermost loop whose body mentions the first counter
@@ -313,6 +327,9 @@ type intFuncSpec struct{ file, fn string }
 var intFuncSpecs = []intFuncSpec{{"pkg/sam/toma.go", "checkArgs"}}
 
 func (t *colTr) intExpr(e ast.Expr) string {
+	if v, ok := t.vars[t.src(e)]; ok {
+		return v
+	}
 	switch x := e.(type) {
 	case *ast.ParenExpr:
 		return t.intExpr(x.X)
